@@ -15,10 +15,11 @@
 #define K 24
 #endif
 #define NVAR (NF + 1)
+#define NFA (NF > 0 ? NF : 1)        /* array dimension when there is no free coefficient (NF == 0: the bare hand-shake) */
 int nondet_int(void);
 int sched[K]; int nsteps;
 
-static cholmod_dense xc_desc[PS_MAXT]; static vr64 xc_data[PS_MAXT][NF];
+static cholmod_dense xc_desc[PS_MAXT]; static vr64 xc_data[PS_MAXT][NFA];
 /* CHOLMOD dense objects: static per thread, registered with the race detector */
 char* ir_cholmod_l_allocate_dense(uint64_t nrow, uint64_t ncol, uint64_t d, uint32_t xtype, char* c){ (void)xtype; (void)c;
   /* one descriptor per thread (see the pool allocator in pthread_seq.c) */
@@ -36,7 +37,7 @@ vr64 ir_calc_residual(char* AtA, char* Atb, char* x_, char* c){ (void)AtA; (void
 void ir___assert_fail(char* a, char* f, uint32_t l, char* fn){ (void)a; (void)f; (void)l; (void)fn; __CPROVER_assert(0, "C12 assert() inside the line search failed"); __CPROVER_assume(0); }
 
 struct out { uint32_t ret; vr64 x[NVAR]; int64_t H1[NVAR]; int64_t nH1; vr64 residual; int32_t calcs; };
-static cholmod_dense X, XF; static vr64 xv[NVAR], xfv[NF]; static int64_t F[NF], H1[NVAR], nF, nH1; static vr64 residual; static int32_t calcs;
+static cholmod_dense X, XF; static vr64 xv[NVAR], xfv[NFA]; static int64_t F[NFA], H1[NVAR], nF, nH1; static vr64 residual; static int32_t calcs;
 static char dummyA[8], dummyB[8], dummyC[8];
 
 static void setup(void){
